@@ -84,8 +84,9 @@ impl XTree {
 
     /// Number of nodes in the subtree rooted at i (including i).
     pub fn subtree_size(&self, i: usize) -> usize {
-        let mut c = 1;
-        for &ch in &self.nodes[i].children { c += self.subtree_size(ch); }
+        let mut c = 0;
+        let mut stack = vec![i];
+        while let Some(k) = stack.pop() { c += 1; stack.extend_from_slice(&self.nodes[k].children); }
         c
     }
 
